@@ -443,6 +443,11 @@ def mk_builder(st, world, transform="identity", hooks=0, cls="GCodeBuilder", pre
     fmt = st.alloc("DefaultFormatter", {})
     tf, treals = affine_fields(prefix + "T", identity=(transform == "identity")); reals += treals
     tr = st.alloc("CoordinateTransformer", tf)
+    if transform != "identity":
+        a = [[c.val for c in r] for r in tf["$A"]]
+        det = (a[0][0] * (a[1][1] * a[2][2] - a[1][2] * a[2][1]) - a[0][1] * (a[1][0] * a[2][2] - a[1][2] * a[2][0])
+               + a[0][2] * (a[1][0] * a[2][1] - a[1][1] * a[2][0]))
+        wfs.append(det != 0)          # C04 quantifies over invertible affine transforms
     axes, wf = sym_point(prefix + "_axes", finite=True); wfs.append(wf); reals += [c.inner.val for c in axes.items()]
     dm, wf = sym_enum("DistanceMode", world, prefix + "_dm"); wfs.append(wf)
     di, wf = sym_enum("Direction", world, prefix + "_dir"); wfs.append(wf)
